@@ -154,10 +154,13 @@ def form_text(form, names, depth=0):
 
 
 class Obligation:
-    __slots__ = ('label', 'cond', 'region', 'detail')
+    __slots__ = ('label', 'cond', 'region', 'detail', 'companion')
 
-    def __init__(self, label, cond, region, detail):
+    def __init__(self, label, cond, region, detail, companion=True):
         self.label, self.cond, self.region, self.detail = label, cond, region, detail
+        # companion=False: in the native companion run the obligation only serves to confirm a counterexample found
+        # symbolically (used where float rounding may legitimately flip a decision exactly on a boundary witness)
+        self.companion = companion
 
 
 class H:
@@ -328,8 +331,8 @@ class H:
             raise TypeError("decide() needs a primitive condition")
         return cond.len
 
-    def require(self, label, cond: Cond, region='', detail=''):
-        self.obligations.append(Obligation(label, cond, region, detail))
+    def require(self, label, cond: Cond, region='', detail='', companion=True):
+        self.obligations.append(Obligation(label, cond, region, detail, companion))
 
     def fail(self, label, detail='', region=''):
         self.obligations.append(Obligation(label, self.true(False, detail), region, detail))
